@@ -46,16 +46,33 @@ var c03Table = xp.Table{
 	"gone": {Kind: xp.AnsAbsent},
 }
 
+func c03Dots(kinds ...xp.StepKind) *xp.Node {
+	p := &xp.Path{Root: xp.RootRel}
+	for _, k := range kinds {
+		p.Steps = append(p.Steps, xp.Step{Kind: k})
+	}
+	return xp.PathNode(p)
+}
+
 func c03Operand(i int) *xp.Node {
-	switch i % 8 {
+	switch i % 11 {
+	case 8:
+		// abbreviated steps as whole operands: what follows them must still be read as an operator
+		return c03Dots(xp.SDot)
+	case 9:
+		return c03Dots(xp.SDotDot)
+	case 10:
+		p := xp.RelName("n1")
+		p.Path.Steps = append(p.Path.Steps, xp.Step{Kind: xp.SDotDot})
+		return p
 	case 0:
-		return xp.Num([]string{"1", "2", "3", "7", "0.5", "10"}[(i/8)%6])
+		return xp.Num([]string{"1", "2", "3", "7", "0.5", "10"}[(i/11)%6])
 	case 1:
-		return xp.Lit([]string{"abc", "4", "", "x y"}[(i/8)%4])
+		return xp.Lit([]string{"abc", "4", "", "x y"}[(i/11)%4])
 	case 2:
 		return xp.Fn("string-length", xp.Lit("hello"))
 	case 3:
-		return xp.RelName([]string{"n1", "n2", "s1", "gone"}[(i/8)%4])
+		return xp.RelName([]string{"n1", "n2", "s1", "gone"}[(i/11)%4])
 	case 4:
 		return xp.Neg(xp.Num("4"))
 	case 5:
@@ -115,6 +132,16 @@ func c03Enum() []*xp.Node {
 			add(c03Bin(o1, c03Leaf(o1, k), xp.Neg(c03Leaf(o1, k+3))))
 		}
 	}
+	// every operand kind on either side of every operator (token disambiguation depends on the
+	// token before an operator name or '*'), alone and followed by a second operator
+	for _, o1 := range c03Ops {
+		for i := 0; i < 11; i++ {
+			for j := 0; j < 11; j++ {
+				add(xp.Bin(o1, c03Operand(i), c03Operand(j)))
+				add(xp.Bin("*", xp.Bin(o1, c03Operand(i), c03Operand(j)), c03Operand(i+3)))
+			}
+		}
+	}
 	for _, o1 := range c03Ops {
 		for _, o2 := range c03Ops {
 			for _, o3 := range c03Ops {
@@ -135,7 +162,7 @@ var c03EnumList = c03Enum()
 
 func c03Random(r *core.Rng, budget int) *xp.Node {
 	if budget <= 0 {
-		return c03Operand(r.Intn(64))
+		return c03Operand(r.Intn(88))
 	}
 	switch r.Intn(12) {
 	case 0:
@@ -275,6 +302,22 @@ func sameOutcome(a, b xpmock.Outcome) bool {
 	return xp.SameVal(va, vb)
 }
 
+// c03HasDotStep: '.' and '..' are checked for shape (program and result equal across the variants);
+// their value depends on the consumer's Navigate and is not tied to the reference.
+func c03HasDotStep(e *xp.Node) bool {
+	d := false
+	xp.Walk(e, false, func(n *xp.Node) {
+		if n.Kind == xp.KPath {
+			for _, st := range n.Path.Steps {
+				if st.Kind != xp.SName {
+					d = true
+				}
+			}
+		}
+	})
+	return d
+}
+
 func hasUnion(e *xp.Node) bool {
 	u := false
 	xp.Walk(e, false, func(n *xp.Node) {
@@ -320,7 +363,7 @@ func (p *c03) check(e *xp.Node, r *core.Rng, res *core.CaseResult) {
 		}
 	}
 	// tie the shape to the right value
-	if !hasUnion(e) && ref.out.Err == "" && ref.out.Panic == "" {
+	if !hasUnion(e) && !c03HasDotStep(e) && ref.out.Err == "" && ref.out.Panic == "" {
 		want := xp.Eval(e, func(pn *xp.Node) xp.Val {
 			var names []string
 			for _, s := range pn.Path.Steps {
